@@ -117,6 +117,15 @@ theorem translated_send_ack (σ : Env) :
     obs Trans.msSend σ = ⟨[("s.produceMessage", [σ "msg", 0])], some [σ "s.produceMessage#0"], false⟩ ∧
     obs Trans.msAck σ = ⟨[("s.produceMessage", [σ "msg", 1])], some [σ "s.produceMessage#0"], false⟩ := by
   minigo_simp [Trans.msSend, Trans.msAck]
+
+/-- the producer's delivery-report loop, translated: whatever the client reports — a delivered record, a failed one, statistics,
+anything else — the loop body makes no call at all: a report is information for the log and puts nothing on the topic -/
+theorem translated_reportLoopBody (σ : Env) :
+    obs Trans.kpReportBody σ = ⟨[("typeswitch ev := e.(type)", [])], none, false⟩ := by
+  by_cases h0 : σ "typeswitch#0" = 0 <;> by_cases h1 : σ "typeswitch#0" = 1 <;> by_cases h2 : σ "typeswitch#0" = 2 <;>
+  by_cases h3 : σ "ev.TopicPartition.Error" = 0 <;>
+  minigo_simp [Trans.kpReportBody, h0, h1, h2, h3]
+
 end Translated
 
 theorem closure_unchanged : GeneratedClo.C12 = ExpectedClo.C12 := by rfl
